@@ -557,6 +557,10 @@ enum NOp {
     Open(usize, u8),
     Rename(usize, usize),
     Remove(usize),
+    /// operations on / inside the directory the prologue made (it holds one deleted entry)
+    RemovePre,
+    CreateIn(usize),
+    RemoveIn(usize),
     List,
 }
 
@@ -680,6 +684,9 @@ fn c19m(args: &[String]) {
     }
 }
 
+/// name of the directory every history starts with
+const PRE: &str = "used dir";
+
 fn variant(s: &str, how: u8) -> String {
     match how {
         0 => s.to_string(),
@@ -696,6 +703,10 @@ fn run_history(img: &Rc<Vec<u8>>, hist: &[NOp], names: &[String], trace: &mut Ve
         let mut t: Vec<u8> = Vec::new();
         {
             let root = fs.root_dir();
+            // prologue (not part of the history): a directory that has been used (one entry created and removed again)
+            root.create_dir(PRE).expect("prologue");
+            root.create_file(&format!("{PRE}/gone.tmp")).expect("prologue");
+            root.remove(&format!("{PRE}/gone.tmp")).expect("prologue");
             for op in hist {
                 let res: String = match op {
                     NOp::Create(n) => format!("{:?}", root.create_file(&names[*n]).map(|_| ())),
@@ -703,6 +714,9 @@ fn run_history(img: &Rc<Vec<u8>>, hist: &[NOp], names: &[String], trace: &mut Ve
                     NOp::Open(n, how) => format!("{:?}", root.open_file(&variant(&names[*n], *how)).map(|_| ())),
                     NOp::Rename(a, b) => format!("{:?}", root.rename(&names[*a], &root, &names[*b])),
                     NOp::Remove(n) => format!("{:?}", root.remove(&names[*n])),
+                    NOp::RemovePre => format!("{:?}", root.remove(PRE)),
+                    NOp::CreateIn(n) => format!("{:?}", root.create_file(&format!("{PRE}/{}", names[*n])).map(|_| ())),
+                    NOp::RemoveIn(n) => format!("{:?}", root.remove(&format!("{PRE}/{}", names[*n]))),
                     NOp::List => String::new(),
                 };
                 t.extend_from_slice(res.as_bytes());
@@ -721,6 +735,25 @@ fn run_history(img: &Rc<Vec<u8>>, hist: &[NOp], names: &[String], trace: &mut Ve
                             t.push(b'|');
                             t.extend_from_slice(&e.len().to_le_bytes());
                             t.push(e.attributes().bits());
+                            // one level down: what the directories of the root contain
+                            if e.is_dir() {
+                                for c in e.to_dir().iter() {
+                                    match c {
+                                        Ok(c) => {
+                                            t.push(b'>');
+                                            t.extend_from_slice(c.short_file_name_as_bytes());
+                                            t.push(b'|');
+                                            if let Some(l) = c.long_file_name_as_ucs2_units() {
+                                                for u in l {
+                                                    t.extend_from_slice(&u.to_le_bytes());
+                                                }
+                                            }
+                                            t.push(c.attributes().bits());
+                                        }
+                                        Err(c) => t.extend_from_slice(format!("ERR{c:?}").as_bytes()),
+                                    }
+                                }
+                            }
                         }
                         Err(e) => t.extend_from_slice(format!("ERR{e:?}").as_bytes()),
                     }
@@ -770,6 +803,9 @@ fn c19(args: &[String]) {
     for n in [0usize, 5, 8, 9, 11, 15] {
         alpha.push(NOp::Remove(n));
     }
+    alpha.push(NOp::RemovePre);
+    alpha.push(NOp::CreateIn(0));
+    alpha.push(NOp::RemoveIn(0));
     let depth = if thorough { 4 } else { 3 };
     let nthreads: usize = std::thread::available_parallelism().map_or(4, |n| n.get());
     let mut total: u64 = (alpha.len() as u64).pow(depth as u32);
@@ -813,7 +849,8 @@ fn c19(args: &[String]) {
                     let mut used: Vec<String> = Vec::new();
                     for op in &hist {
                         match op {
-                            NOp::Create(n) | NOp::CreateDir(n) | NOp::Remove(n) => used.push(names[*n].clone()),
+                            NOp::Create(n) | NOp::CreateDir(n) | NOp::Remove(n) | NOp::CreateIn(n) | NOp::RemoveIn(n) => used.push(names[*n].clone()),
+                            NOp::RemovePre => {}
                             NOp::Open(n, how) => {
                                 used.push(names[*n].clone());
                                 used.push(variant(&names[*n], *how));
